@@ -62,21 +62,23 @@ func c06WaitResponse(p *load.Program, r *oblig.Report) {
 	pos := p.Pos(fn.Pos())
 	// the id == rid comparison
 	var eq *ssa.BasicBlock
+	eqEdge := 0
 	for _, b := range an.Blocks(fn) {
 		_, ci := an.IfCond(b)
-		if ci == nil || ci.Op != token.EQL {
+		if ci.Edge(token.EQL) < 0 {
 			continue
 		}
 		dx, dy := argDesc(ci.X), argDesc(ci.Y)
 		if (dx == "param:id" && strings.Contains(dy, "peekResponseSizeAndID#1")) || (dy == "param:id" && strings.Contains(dx, "peekResponseSizeAndID#1")) {
 			eq = b
+			eqEdge = ci.Edge(token.EQL)
 		}
 	}
 	if eq == nil {
 		r.Bad(rule, "waitResponse → comparison of the expected id with the id peeked from the stream", pos, "if id == rid", "not found")
 		return
 	}
-	match := eq.Succs[0]
+	match := eq.Succs[eqEdge]
 	// skipResponseSizeAndID only on the match edge
 	okSkip, nSkip := true, 0
 	an.EachInstr(fn, func(ins ssa.Instruction) {
@@ -261,7 +263,7 @@ func c06LockHandoff(p *load.Program, r *oblig.Report) {
 				unlockCall = ins
 				for _, pred := range ins.Block().Preds {
 					_, ci := an.IfCond(pred)
-					if ci != nil && ci.Op == token.NEQ && an.IsNilConst(ci.Y) && pred.Succs[0] == ins.Block() {
+					if ci.Edge(token.NEQ) >= 0 && an.IsNilConst(ci.Y) && pred.Succs[ci.Edge(token.NEQ)] == ins.Block() {
 						unlockGuarded = true
 					}
 				}
@@ -435,7 +437,9 @@ func exchangeFunction(p *load.Program, run *ssa.Function) (*ssa.Function, *ssa.C
 		return rt
 	}
 	if rt := find(run); rt != nil {
-		return run, rt
+		// (an.EachInstr also looks into helpers that did not exist at review time: report the function that really
+		// holds the call, so that its exits and run's reaction to them are examined)
+		return rt.Parent(), rt
 	}
 	var F *ssa.Function
 	var rt *ssa.Call
@@ -518,10 +522,8 @@ func c06Transport(p *load.Program, r *oblig.Report) {
 		for _, b := range an.Blocks(F) {
 			_, ci := an.IfCond(b)
 			if ci != nil && ci.X == errVal && an.IsNilConst(ci.Y) {
-				if ci.Op == token.NEQ {
-					start = b.Succs[0]
-				} else {
-					start = b.Succs[1]
+				if e := ci.Edge(token.NEQ); e >= 0 {
+					start = b.Succs[e]
 				}
 			}
 		}
